@@ -1374,6 +1374,9 @@ def run_ext(ctx):
         if i % 7 == 0:
             s["bind"] = {k: g.item(g.r.randint(1, 3)) for k in g.r.sample(["a", "B", "ab", "a.b", "a-b", "Z", "_x", "b", "aa", "A1", "a1", "~", "0"], g.r.randint(0, 6))}
         cs.append({"id": "statetext-%05d" % i, "pre": s, "acts": [{"a": "state_text"}, {"a": "steps", "k": 2}, {"a": "state_text"}]})
+    # the instruction set as an object (MC_ISet: all histories up to a bound, replayed)
+    cfg = 'SPECIFICATION Spec\nCONSTANTS\n MaxOps = %d\nINVARIANTS L2 L3 L4 Emit\nPROPERTY L1\nVIEW view\nCHECK_DEADLOCK FALSE\n' % (3 if q else 5)
+    api_model(ctx, "MC_ISet", "mc_iset", cfg, lambda c: {"api": "iset", "ops": c["ops"]}, workers=8)
     cs.append({"id": "fresh-state", "fresh": True, "pre": gen.empty_state(), "acts": [{"a": "state_text", "fresh": True}]})
     run_events(ctx, "state_text", cs)
 
